@@ -733,7 +733,9 @@ impl IndexModel {
                 jobj(&pairs)
             })
             .collect();
-        let _ = &mut secs;
+        if self.sections.windows(2).all(|w| w[0].offset != w[1].offset) {
+            rng.shuffle(&mut secs); // the decoder sorts sections by offset
+        }
         let mut pairs = vec![("version".to_string(), "3".to_string()), ("sections".into(), jarr(secs))];
         if let Some(f) = &self.file {
             pairs.push(("file".into(), jstr(f)));
